@@ -62,7 +62,7 @@ def replay(ctx, data):
         at, seg = ops_rejected(ctx, drv, r['steps'], 'replay')
     else:
         tp = os.path.join(ctx.work, 'replay.ndjson')
-        ctx.run([drv, 'random', tp, str(r['seed']), str(r['segment'] + 1), str(r['ops'])])
+        ctx.run([drv, 'random', tp, str(r['seed']), str(r.get('segments', r['segment'] + 1)), str(r['ops'])])
         seg = vlib.split_segments(vlib.read_ndjson(tp))[r['segment']]
         acc, rej = vlib.validate_segments(ctx, 'TraceBuffer', TC, SPEC, [seg], name='replay', count=False)
         at = rej[0][1] if rej else None
@@ -127,16 +127,17 @@ def run(ctx):
             continue
         seen.add(mm['path'])
         p = script['paths'][mm['path']][:mm['step'] + 1]
-        if len(seen) <= 2:
+        if len(seen) <= (1 if 'never returns' in mm['what'] else 2):    # (a stuck call costs its 5 s again)
             # reproduce once, judged by TLC against the P-spec alone (no model state involved)
             at, _seg = ops_rejected(ctx, drv, [[s['a']] + s['args'] for s in p], 'confirm-%d' % len(seen))
             if at is None:
                 raise vlib.Inconclusive('graph mismatch not reproduced at P-level (%s after %s): the replay compares against the model, TLC accepts the same run' % (
                     mm['what'], [[s['a']] + s['args'] for s in p]))
+        before = script['states'][p[-2]['dst'] if len(p) > 1 else script['init']]
         ctx.violation('pkg/buffer disagrees with the byte-string spec after step %d (%s): %s want=%s got=%s' % (
             mm['step'], p[-1]['a'] + str(p[-1]['args']), mm['what'], mm.get('want'), mm.get('got')),
             dict(kind='graph', config=dict(zip(('MaxObj', 'MaxLen', 'MaxChunks', 'MaxRes'), gcfg)),
-                 steps=[[s['a']] + s['args'] for s in p], mismatch=mm))
+                 steps=[[s['a']] + s['args'] for s in p], abstract_before=before.get('abs'), mismatch=mm))
     # observation, not a verdict: Views()[:cap(Views())] of a capped VectorisedView still shows the
     # dropped chunks (the list is re-sliced with two indices). Reported as a finding only if
     # known_findings.json carries an entry for it (match.kind = "list-reextend").
@@ -156,11 +157,19 @@ def run(ctx):
 
     # ---- E3: longer seeded random sequences, decided by TLC against the P-spec
     nseg, nops = ctx.pick((60, 30), (1500, 30))
+    nsegarg = nseg
     tp = os.path.join(ctx.work, 'random.ndjson')
     ctx.run([drv, 'random', tp, str(ctx.seed), str(nseg), str(nops)], timeout=3000)
     segs = vlib.split_segments(vlib.read_ndjson(tp))
-    if len(segs) != nseg:
-        raise vlib.Inconclusive('random driver produced %d segments, expected %d' % (len(segs), nseg))
+    # the driver first runs its directed sequences (empty chunks at the front / middle / end / in a
+    # row / only empty chunks; counts beyond the size, RemoveFirst past the end), then nseg random ones;
+    # it stops early only after 3 calls that never returned
+    nstuck = sum(1 for s in segs for e in s if e['ev'] == 'stuck')
+    nrandom = sum(1 for s in segs if s[0].get('kind') == 'random')
+    if nrandom != nseg and nstuck < 3:
+        raise vlib.Inconclusive('random driver produced %d random segments, expected %d' % (nrandom, nseg))
+    ctx.extra['directed_segments'] = len(segs) - nrandom
+    nseg = len(segs)
     hist = {}
     maxchunks = 0
     for s in segs:
@@ -172,7 +181,7 @@ def run(ctx):
     ctx.extra['random_segments'] = nseg
     ctx.extra['random_max_chunks'] = maxchunks
     missing = [a for a in OPS if not hist.get(a)]
-    if missing and not hist.get('panic'):
+    if missing and not hist.get('panic') and not hist.get('stuck'):
         raise vlib.Inconclusive('vacuity: operations never issued by the random driver: %s' % missing)
     # binding self-test rides along: a copy of a recorded sequence with one content byte flipped
     # (and, thorough tier, one with a trim/cap event removed) is appended; TLC must reject exactly those
@@ -188,7 +197,8 @@ def run(ctx):
                     break
         if 'drop' not in tests and ctx.thorough():
             for k, e in enumerate(s):
-                if e['ev'] in ('VTrim', 'VCap') and k >= 1 and e['objs'] != s[k - 1].get('objs'):
+                # an event whose removal shows at P level: it changed some object's bytes
+                if e['ev'] in ('VTrim', 'VCap') and k >= 1 and [x['b'] for x in e['objs']] != [x['b'] for x in s[k - 1].get('objs', [])]:
                     tests['drop'] = s[:k] + s[k + 1:]
                     break
         if len(tests) == ctx.pick(1, 2):
@@ -204,8 +214,12 @@ def run(ctx):
     for si, ln in rej:
         e = segs[si][ln] if ln < len(segs[si]) else {}
         prev = segs[si][ln - 1].get('objs') if ln >= 1 else None
-        ctx.violation('random operation sequence rejected by the byte-string spec at event %d: %s' % (ln, brief(e)),
-                      dict(kind='random', seed=ctx.seed, segment=si, ops=nops,
+        what = 'operation sequence rejected by the byte-string spec at event %d: %s' % (ln, brief(e))
+        if e.get('ev') == 'stuck':
+            what = 'operation sequence: %s(%s, %s) never returns (the byte-string spec says it returns): %s; objects before: %s' % (
+                e['op'], e['o'], e['n'], e['msg'], [dict(kind=x['kind'], b=x['b'], chunks=[v['b'] for v in x['views']]) for x in e.get('before', [])])
+        ctx.violation(what,
+                      dict(kind='random', seed=ctx.seed, segment=si, segments=nsegarg, ops=nops,
                            steps=[brief(x) for x in segs[si][:ln + 1]], objects_before=prev, observed_after=e.get('objs')))
     if not ctx.extra.get('unexamined_segments'):
         if len(names) < ctx.pick(1, 2) and not rej:
